@@ -41,7 +41,12 @@
 //    time out - inconclusive, never unsound.)
 //  * node CREATION (get_or_create_descendant on a missing label) goes through
 //    `entry().or_insert_with()` and is out of reach for that reason: see
-//    the report.  Insert is covered where the node already exists.
+//    the report.  HashMapTreeCatalog::insert / get_or_create_descendant is
+//    therefore NOT covered by this family, not even where the node already
+//    exists (the creating branch is always part of the encoding): the step
+//    "insert at b.a." on the 5-node tree with symbolic entries ran out of
+//    17 GB after 1010 s, the fully concrete history "replace the entry at
+//    a." out of 6 GB after 3 minutes.
 //
 // Entries never hold a zone (`Entry::Loaded(Arc<Z>)` is never constructed;
 // Z = NoZone is a unit type): which zone object an entry carries is opaque to
@@ -558,41 +563,4 @@ fn c22_step_remove_chain_ba() {
     kani::cover!(before.present[I_BA] && before.present[I_A], "pruning stops at a. because it holds an entry");
     kani::cover!(before.present[I_BA] && !before.present[I_A] && before.present[I_ROOT], "pruning stops at the root because it holds an entry");
     kani::cover!(before.present[I_BA] && !before.present[I_A] && !before.present[I_ROOT], "the whole chain is pruned");
-}
-
-// ---------------------------------------------------------------------------
-// one insert step onto an existing node (what HashMapTreeCatalog::insert does
-// after it has found the class root)
-// ---------------------------------------------------------------------------
-
-fn insert_existing_step(target: &[u8], i: usize) {
-    let before = RefCat::any();
-    let mut root = build_t5(&before, Class::IN);
-    let failed: bool = kani::any();
-    let tag: u8 = kani::any();
-    let entry: TEntry = if failed { Entry::FailedToLoad(nm(target), Class::IN, tag) } else { Entry::NotYetLoaded(nm(target), Class::IN, tag) };
-    let old = {
-        let node = root.get_or_create_descendant(entry.name(), entry.name().len() - 1);
-        node.data.replace(entry)
-    };
-    assert!(see_owned(&old) == before.seen(i), "[C22] insert returns the entry it replaced");
-    let mut after = before;
-    after.present[i] = true;
-    after.failed[i] = failed;
-    after.tag[i] = tag;
-    observe_tree(&root, &after);
-    kani::cover!(before.present[i] && before.tag[i] != tag, "replaced an entry by a different one");
-    kani::cover!(!before.present[i], "filled an entry-less node");
-    core::mem::forget(old);
-    core::mem::forget(root);
-}
-
-// @harness props=C22 tier=thorough mem=6 t=2400 fn="Node::get_or_create_descendant (existing path),lookup_in_class"
-//   bound="tree . -> a -> {b -> c, x}, every entry symbolic; insert a symbolic entry at b.a. (node exists); the 5 pool names; unwind 7"
-//   sym="entries of 5 nodes + the new entry" stubs="eq_ignore_ascii_case" cbmc="--max-field-sensitivity-array-size 1024" kani="--no-assertion-reach-checks"
-#[kani::proof]
-#[kani::unwind(7)]
-#[kani::stub(<[u8]>::eq_ignore_ascii_case, eq_ic_model)]
-fn c22_step_insert_existing_ba() {
-    insert_existing_step(N_BA, I_BA);
 }
